@@ -501,6 +501,16 @@ def _getters(ctx) -> None:
            f"{[nun(x.value) for x in r]}", dm.rel)
 
 
+def _day_number_cases(deep: bool):
+    import calendar
+    out = []
+    for y in (list(range(1, 10000, 7)) if deep else [1, 4, 100, 400, 1583, 1600, 1899, 1900, 1901, 1999, 2000, 2001, 2004, 2023, 2024, 2100, 2400, 9999]):
+        for mo in range(1, 13):
+            for d in (1, 15, calendar.monthrange(y, mo)[1]):
+                out.append((y, mo, d))
+    return out
+
+
 def _local_time_cases(deep: bool):
     """timestamps on both sides of year boundaries, leap days, the epoch, negative times, utc offsets of both signs; the expected
     broken-down time by the standard library's datetime arithmetic"""
@@ -522,6 +532,64 @@ def _local_time_cases(deep: bool):
         lt_cases += [(t0, 0, 0), (t0 + 86400 * 200 + 3661, 0, 1), (t0 + 1, 3600, 2)] + ([(t0 - 1, 0, 3)] if y > 1 else [])
     lt_cases += [(0, 0, 0), (-1, 0, 0), (1, 0, 0), (951782400, 0, 0), (951868799, 0, 7), (0.5, 0, 500000), (-0.5, 0, 500000), (4102444800, 0, 0), (-11644473600, 0, 0)]
     return lt_cases, lt_want
+
+
+def _getters_tabulate(ctx) -> bool | None:
+    """GETTERS.tabulated: the calendar getters of Date (days_in_month, is_leap_year, is_long_year, quarter, day_of_week, day_of_year,
+    week_of_year) run by the checker's interpreter on Date instance stubs - the fields and the native methods (weekday, isocalendar,
+    timetuple ...) are the standard library's, `calendar` / `math` are the standard library, helpers imported from pendulum.helpers stand
+    for what PRIM.tabulated decides them to be - over month ends and starts of common, leap, century and long years, against the
+    standard library."""
+    import calendar
+    import datetime as _dt
+    import math
+    from ..rules import minieval, wallstub
+    from ..rules.minieval import ClassStub, Obj, Stub
+    m = pmod("date")
+    meths = m.methods("Date")
+    props = {k for k, f in meths.items() if any(core.dotted(d) == "property" for d in f.decorator_list)}
+    helpers = {"is_leap": calendar.isleap, "is_long_year": lambda y: _dt.date(y, 12, 28).isocalendar()[1] == 53,
+               "days_in_year": lambda y: 366 if calendar.isleap(y) else 365, "week_day": lambda y, mo, d: _dt.date(y, mo, d).isoweekday()}
+    glob = {**minieval.module_consts(m), "calendar": Stub(isleap=calendar.isleap, monthrange=calendar.monthrange, monthcalendar=calendar.monthcalendar),
+            "math": Stub(ceil=math.ceil, floor=math.floor), "WeekDay": ClassStub(_new=lambda v: {i: i for i in range(7)}[v], _isa=lambda v: isinstance(v, int), **vars(wallstub.WEEKDAY)), "pendulum": Stub(helpers=Stub(**helpers)),
+            "Date": ClassStub(_new=_dt.date, _isa=lambda v: isinstance(v, (_dt.date, Obj))), "date": ClassStub(_new=_dt.date, _isa=lambda v: isinstance(v, (_dt.date, Obj)))}
+    for st in m.tree.body:
+        if isinstance(st, ast.ImportFrom) and st.module in ("pendulum.helpers", "pendulum._helpers"):
+            for a in st.names:
+                if a.name in helpers:
+                    glob[a.asname or a.name] = helpers[a.name]
+    want = {"days_in_month": lambda d: calendar.monthrange(d.year, d.month)[1], "is_leap_year": lambda d: calendar.isleap(d.year),
+            "is_long_year": lambda d: _dt.date(d.year, 12, 28).isocalendar()[1] == 53, "quarter": lambda d: (d.month - 1) // 3 + 1,
+            "day_of_week": lambda d: d.weekday(), "day_of_year": lambda d: d.timetuple().tm_yday, "week_of_year": lambda d: d.isocalendar()[1]}
+    dates = []
+    for y in (1, 4, 100, 400, 1900, 1999, 2000, 2004, 2015, 2016, 2020, 2021, 2023, 2024, 2026, 2100, 9999):
+        for mo in range(1, 13):
+            for day in (1, calendar.monthrange(y, mo)[1]):
+                dates.append(_dt.date(y, mo, day))
+    funcs = {st.name: st for st in m.top() if isinstance(st, ast.FunctionDef)}
+    res: dict[str, list[str]] = {}
+    counts: dict[str, int] = {}
+    for name, w in want.items():
+        if name not in meths:
+            continue
+        bad = res.setdefault(name, [])
+        try:
+            for d in dates:
+                o = Obj(_methods=meths, _props=props, _natives={}, _ctor=glob["Date"], _types=(_dt.date,), year=d.year, month=d.month, day=d.day, weekday=d.weekday,
+                        isoweekday=d.isoweekday, isocalendar=d.isocalendar, timetuple=d.timetuple, toordinal=d.toordinal)
+                got = minieval.call(meths[name], [o], {}, {**funcs, "$globals": glob})
+                counts[name] = counts.get(name, 0) + 1
+                exp = w(d)
+                if got != exp or (isinstance(exp, bool) != isinstance(got, bool)):
+                    bad.append(f"Date({d}).{name} = {got!r} (expected {exp!r})")
+        except (core.Unsupported, KeyError, TypeError, AttributeError, IndexError, RecursionError, ValueError, ZeroDivisionError, minieval.Raised) as e:
+            ctx.unverified("GETTERS.tabulated", f"Date.{name}", f"outside the checker's interpreter: {type(e).__name__}: {e}", m.loc(meths[name]))
+            res.pop(name)
+            continue
+        ctx.ob("GETTERS.tabulated", f"Date.{name}", not bad, f"{counts.get(name, 0)} dates: " + (f"wrong: {bad[:3]}" if bad else "equal to the standard library"), m.loc(meths[name]))
+        if not bad:
+            ctx.established(("DELEGATE", "TABULATE.quarter"), f"Date.{name}", "GETTERS.tabulated")
+    return all(not b for b in res.values())
 
 
 def _prim_tabulate(ctx) -> None:
@@ -573,6 +641,23 @@ def _prim_tabulate(ctx) -> None:
     tab("week_day", wd_cases, lambda y, mo, d: _dt.date(y, mo, d).isoweekday(), lambda a: f"week_day{a}")
     lt_cases, lt_want = _local_time_cases(deep)
     tab("local_time", lt_cases, lt_want, lambda a: f"local_time{a}")
+    # _day_number: only differences matter (total_days of an interval) - the day count from 2000-03-01, whatever the function's own origin
+    if "_day_number" in funcs:
+        try:
+            origin = minieval.call(funcs["_day_number"], [2000, 3, 1], {}, glob)
+            funcs["_day_number (relative)"] = None
+            bad, n = [], 0
+            for y, mo, d in _day_number_cases(deep):
+                n += 1
+                got = minieval.call(funcs["_day_number"], [y, mo, d], {}, glob) - origin
+                w = (_dt.date(y, mo, d) - _dt.date(2000, 3, 1)).days
+                if got != w:
+                    bad.append(f"_day_number({y}, {mo}, {d}) - _day_number(2000, 3, 1) = {got} (expected {w})")
+            ctx.ob("PRIM.tabulated", "py:_day_number", not bad, f"{n} dates: " + (f"wrong: {bad[:3]}" if bad else "differences equal the standard library's day counts"), m.loc(funcs["_day_number"]))
+            if not bad:
+                ctx.established(("FORMULA.day_number",), "py:_day_number", "PRIM.tabulated")
+        except (core.Unsupported, KeyError, TypeError, AttributeError, IndexError, RecursionError, ValueError, ZeroDivisionError, minieval.Raised) as e:
+            ctx.unverified("PRIM.tabulated", "py:_day_number", f"outside the checker's interpreter: {type(e).__name__}: {e}", m.loc(funcs["_day_number"]))
 
 
 def _rs_prim_tabulate(ctx, mir) -> None:
@@ -684,6 +769,22 @@ def _rs_prim_tabulate(ctx, mir) -> None:
     except (core.Unsupported, core.AnchorMissing, KeyError, TypeError, AttributeError, IndexError, ValueError, ZeroDivisionError, RecursionError) as e:
         ctx.unverified("RSPRIM.tabulated", "rs:local_time", f"outside the MIR evaluator: {type(e).__name__}: {str(e)[:160]}", rel)
         return
+    try:
+        import datetime as _dtm
+        fdn = mir.fn("day_number")
+        origin = mirexec.Machine(mir, sf).run(fdn, [2000, 3, 1])
+        bad_d, n_d = [], 0
+        for y, mo, d in _day_number_cases(deep):
+            n_d += 1
+            got = mirexec.Machine(mir, sf).run(fdn, [y, mo, d]) - origin
+            w = (_dtm.date(y, mo, d) - _dtm.date(2000, 3, 1)).days
+            if got != w:
+                bad_d.append(f"day_number({y}, {mo}, {d}) - day_number(2000, 3, 1) = {got} (expected {w})")
+        ctx.ob("RSPRIM.tabulated", "rs:day_number", not bad_d, f"{n_d} dates evaluated on the MIR: " + (f"wrong: {bad_d[:3]}" if bad_d else "differences equal the standard library's day counts"), rel)
+        if not bad_d:
+            ctx.established(("SIBLING.day_number",), "py-vs-rs:day_number", "RSPRIM.tabulated + PRIM.tabulated")
+    except (core.Unsupported, core.AnchorMissing, KeyError, TypeError, AttributeError, IndexError, ValueError, ZeroDivisionError, RecursionError, mirexec.Panic) as e:
+        ctx.unverified("RSPRIM.tabulated", "rs:day_number", f"outside the MIR evaluator: {type(e).__name__}: {str(e)[:160]}", rel)
     ctx.ob("RSPRIM.tabulated", "rs:local_time", not bad, f"{n} timestamps evaluated on the MIR of the compiled local_time: " + (f"wrong: {bad[:3]}" if bad else "equal to the standard library's datetime arithmetic on every input"), rel)
     if not bad:
         ctx.established(("SIBLING.local_time", "CUMSEARCH.backward"), "py-vs-rs:local_time", "RSPRIM.tabulated + PRIM.tabulated")
@@ -703,6 +804,7 @@ def run(ctx) -> None:
     ctx.step(_rs_prim_tabulate, ctx, mir)
     ctx.step(_siblings, ctx, mir)
     ctx.step(_local_time, ctx, mir)
+    ctx.step(_getters_tabulate, ctx)
     ctx.step(_getters, ctx)
     from . import C07
     ctx.step(C07._py_backward, ctx)
